@@ -2,6 +2,8 @@ package main
 
 import (
 	"fmt"
+	"go/ast"
+	"go/types"
 	"sort"
 
 	"golang.org/x/tools/go/ssa"
@@ -36,6 +38,39 @@ func runDump(args []string) {
 		}
 	case "appends":
 		dumpAppends(p, args[1])
+	case "fieldstores":
+		// stores into fields of schema.Field anywhere in the repo
+		ft := p.Named(pkgSchema, "Field")
+		for _, f := range p.Funcs {
+			info := f.Pkg.TypesInfo
+			ast.Inspect(f.Body, func(n ast.Node) bool {
+				if _, ok := n.(*ast.FuncLit); ok {
+					return false
+				}
+				as, ok := n.(*ast.AssignStmt)
+				if !ok {
+					return true
+				}
+				for _, l := range as.Lhs {
+					sel, ok := unparen(l).(*ast.SelectorExpr)
+					if !ok {
+						continue
+					}
+					sl := info.Selections[sel]
+					if sl == nil || sl.Kind() != types.FieldVal {
+						continue
+					}
+					rt := sl.Recv()
+					if pt, ok := rt.(*types.Pointer); ok {
+						rt = pt.Elem()
+					}
+					if nt, ok := rt.(*types.Named); ok && nt == ft {
+						fmt.Printf("%-50s %-40s %s\n", f.Name(), exprStr(l), p.Pos(as.Pos()))
+					}
+				}
+				return true
+			})
+		}
 	case "funcs":
 		for _, f := range p.Funcs {
 			fmt.Println(f.Pkg.PkgPath, f.Name())
